@@ -9,6 +9,6 @@ if ! git apply "$P" 2>/dev/null; then
   if git diff --name-only --diff-filter=U | grep -q .; then echo "PATCH DOES NOT APPLY CLEANLY"; rm -rf $T; exit 3; fi
 fi
 git diff --stat | tail -1
-cd /verif && VERIF_REPO=$T VERIF_WORKTAG=.seed$$ timeout ${MUT_TIMEOUT:-1200} ./check $ID $TIER 2>&1 | grep -v "^KNOWN-FINDING" | head -${LINES_MAX:-8}
+cd /verif && VERIF_EVIDENCE_DIR=/tmp/evscratch VERIF_REPO=$T VERIF_WORKTAG=.seed$$ timeout ${MUT_TIMEOUT:-1200} ./check $ID $TIER 2>&1 | grep -v "^KNOWN-FINDING" | head -${LINES_MAX:-8}
 echo "rc=${PIPESTATUS[0]}"
 rm -rf $T
